@@ -14,8 +14,14 @@ Definition config := list target.
 Definition trie_prefixes (keys : list str) (q : str) : list str :=
   filter (fun k => match k with [] => false | _ => byte_prefix k q end) keys.
 Definition lookup_bytes (keys : list str) (q : str) : list str := trie_prefixes keys q.
+(* the query's own directory stored with a trailing slash ("lib/" for the query "lib"): one byte longer than the query, found by exact_match *)
+Definition dir_key_of (keys : list str) (q : str) : list str :=
+  match q with
+  | [] => []
+  | _ => if ends_slash q then [] else if existsb (str_eqb (q ++ [slash])) keys then [q ++ [slash]] else []
+  end.
 Definition lookup (keys : list str) (q : str) : list str :=
-  filter (fun k => on_boundary_or_slash k q) (trie_prefixes keys q).
+  filter (fun k => on_boundary_or_slash k q) (trie_prefixes keys q) ++ dir_key_of keys q.
 Definition lookup_sel (bnd : bool) := if bnd then lookup else lookup_bytes.
 
 Definition mem_str (s : str) (l : list str) := existsb (str_eqb s) l.
